@@ -36,6 +36,15 @@ type MapRangeNondet struct {
 	Line                     int
 }
 
+// MapRangeMarshal: a call that serialises a protobuf message inside the generator.
+// Without Deterministic: true the bytes depend on map iteration order whenever the
+// message (e.g. descriptor options re-linked through dynamicpb) contains map fields.
+type MapRangeMarshal struct {
+	File, Func, Callee string
+	Line               int
+	Deterministic      bool
+}
+
 type mapRangeImporter struct {
 	fset  *token.FileSet
 	repo  string
@@ -414,17 +423,18 @@ func mapRangeFuncName(fd *ast.FuncDecl, fset *token.FileSet) string {
 	return fd.Name.Name
 }
 
-func MapRangeExtract(repo string) ([]MapRangeSite, []MapRangeNondet, []string, error) {
+func MapRangeExtract(repo string) ([]MapRangeSite, []MapRangeNondet, []MapRangeMarshal, []string, error) {
 	fset := token.NewFileSet()
 	build.Default.CgoEnabled = false
 	m := &mapRangeImporter{fset: fset, repo: repo, std: importer.ForCompiler(fset, "source", nil),
 		pkgs: map[string]*types.Package{}, files: map[string][]*ast.File{}, infos: map[string]*types.Info{}}
 	var sites []MapRangeSite
 	var nondet []MapRangeNondet
+	var marshals []MapRangeMarshal
 	for _, t := range mapRangeTargets {
 		path := mapRangeModule + "/" + t
 		if _, err := m.load(path, true); err != nil {
-			return nil, nil, nil, err
+			return nil, nil, nil, nil, err
 		}
 		info := m.infos[path]
 		cls := &mapRangeCls{info: info, fset: fset}
@@ -460,6 +470,10 @@ func MapRangeExtract(repo string) ([]MapRangeSite, []MapRangeNondet, []string, e
 							nondet = append(nondet, MapRangeNondet{fname, fn, "select", "", fset.Position(x.Pos()).Line})
 						case *ast.CallExpr:
 							if sel, ok := x.Fun.(*ast.SelectorExpr); ok {
+								if ms, ok := mapRangeMarshalCall(info, fset, sel); ok {
+									ms.File, ms.Func, ms.Line = fname, fn, fset.Position(x.Pos()).Line
+									marshals = append(marshals, ms)
+								}
 								if pk, ok := sel.X.(*ast.Ident); ok {
 									if obj, ok := info.Uses[pk].(*types.PkgName); ok {
 										ip := obj.Imported().Path()
@@ -525,7 +539,56 @@ func MapRangeExtract(repo string) ([]MapRangeSite, []MapRangeNondet, []string, e
 		}
 		return a.Kind < b.Kind
 	})
-	return sites, nondet, m.errs, nil
+	sort.Slice(marshals, func(i, j int) bool {
+		if marshals[i].File != marshals[j].File {
+			return marshals[i].File < marshals[j].File
+		}
+		return marshals[i].Line < marshals[j].Line
+	})
+	return sites, nondet, marshals, m.errs, nil
+}
+
+// mapRangeMarshalCall recognises proto.Marshal / prototext.Marshal / protojson.Marshal
+// and the Marshal* methods of their MarshalOptions; deterministic means the receiver is
+// a proto.MarshalOptions literal with Deterministic: true.
+func mapRangeMarshalCall(info *types.Info, fset *token.FileSet, sel *ast.SelectorExpr) (MapRangeMarshal, bool) {
+	switch sel.Sel.Name {
+	case "Marshal", "MarshalAppend", "MarshalState", "Format":
+	default:
+		return MapRangeMarshal{}, false
+	}
+	serial := func(p string) bool {
+		return p == mapRangeModule+"/proto" || p == mapRangeModule+"/encoding/prototext" || p == mapRangeModule+"/encoding/protojson"
+	}
+	if pk, ok := sel.X.(*ast.Ident); ok {
+		if obj, ok := info.Uses[pk].(*types.PkgName); ok {
+			if serial(obj.Imported().Path()) {
+				return MapRangeMarshal{Callee: obj.Imported().Name() + "." + sel.Sel.Name}, true
+			}
+			return MapRangeMarshal{}, false
+		}
+	}
+	tv, ok := info.Types[sel.X]
+	if !ok || tv.Type == nil {
+		return MapRangeMarshal{}, false
+	}
+	named, ok := tv.Type.(*types.Named)
+	if !ok || named.Obj().Pkg() == nil || named.Obj().Name() != "MarshalOptions" || !serial(named.Obj().Pkg().Path()) {
+		return MapRangeMarshal{}, false
+	}
+	ms := MapRangeMarshal{Callee: named.Obj().Pkg().Name() + ".MarshalOptions." + sel.Sel.Name}
+	if lit, ok := sel.X.(*ast.CompositeLit); ok && named.Obj().Pkg().Path() == mapRangeModule+"/proto" {
+		for _, el := range lit.Elts {
+			if kv, ok := el.(*ast.KeyValueExpr); ok {
+				if k, ok := kv.Key.(*ast.Ident); ok && k.Name == "Deterministic" {
+					if v, ok := kv.Value.(*ast.Ident); ok && v.Name == "true" {
+						ms.Deterministic = true
+					}
+				}
+			}
+		}
+	}
+	return ms, true
 }
 
 func mapRangeCoqString(s string) string {
@@ -533,7 +596,7 @@ func mapRangeCoqString(s string) string {
 }
 
 // MapRangeCoq renders coq/theories/Gen/MapRangeSites.v.
-func MapRangeCoq(sites []MapRangeSite, nondet []MapRangeNondet) string {
+func MapRangeCoq(sites []MapRangeSite, nondet []MapRangeNondet, marshals []MapRangeMarshal) string {
 	var b strings.Builder
 	b.WriteString("(* GENERATED by srcmodel maprange from compiler/protogen and cmd/protoc-gen-go/internal_gengo\n")
 	b.WriteString("   (go/parser + go/types) -- do not edit.  One record per `range` statement over a\n")
@@ -541,7 +604,8 @@ func MapRangeCoq(sites []MapRangeSite, nondet []MapRangeNondet) string {
 	b.WriteString("From Coq Require Import List String NArith.\nImport ListNotations.\nOpen Scope string_scope.\n\n")
 	b.WriteString("Inductive shape := CollectThenSort | InsertIntoMapOrSet | OrderInsensitiveFold | ReturnError | Other.\n")
 	b.WriteString("Record site := mksite { s_file : string; s_line : N; s_func : string; s_expr : string; s_shape : shape; s_ptrkey : bool }.\n")
-	b.WriteString("Record nondet := mknondet { n_file : string; n_line : N; n_func : string; n_kind : string; n_detail : string }.\n\n")
+	b.WriteString("Record nondet := mknondet { n_file : string; n_line : N; n_func : string; n_kind : string; n_detail : string }.\n")
+	b.WriteString("Record marshal_site := mkmarshal { m_file : string; m_line : N; m_func : string; m_callee : string; m_deterministic : bool }.\n\n")
 	b.WriteString("Definition sites : list site := [\n")
 	for i, s := range sites {
 		sep := ";"
@@ -559,12 +623,22 @@ func MapRangeCoq(sites []MapRangeSite, nondet []MapRangeNondet) string {
 		}
 		fmt.Fprintf(&b, "  mknondet %s %d%%N %s %s %s%s\n", mapRangeCoqString(s.File), s.Line, mapRangeCoqString(s.Func), mapRangeCoqString(s.Kind), mapRangeCoqString(s.Detail), sep)
 	}
+	b.WriteString("].\n\n(* calls that serialise a message: proto/prototext/protojson Marshal and MarshalOptions methods;\n")
+	b.WriteString("   m_deterministic = the receiver is a proto.MarshalOptions literal with Deterministic: true *)\n")
+	b.WriteString("Definition marshal_sites : list marshal_site := [\n")
+	for i, s := range marshals {
+		sep := ";"
+		if i == len(marshals)-1 {
+			sep = ""
+		}
+		fmt.Fprintf(&b, "  mkmarshal %s %d%%N %s %s %v%s\n", mapRangeCoqString(s.File), s.Line, mapRangeCoqString(s.Func), mapRangeCoqString(s.Callee), s.Deterministic, sep)
+	}
 	b.WriteString("].\n")
 	return b.String()
 }
 
 func MapRangeMain(repo string) int {
-	sites, nondet, errs, err := MapRangeExtract(repo)
+	sites, nondet, marshals, errs, err := MapRangeExtract(repo)
 	if err != nil {
 		fmt.Fprintln(os.Stderr, "maprange:", err)
 		return 1
@@ -581,7 +655,7 @@ func MapRangeMain(repo string) int {
 		return 1
 	}
 	out := filepath.Join(dir, "MapRangeSites.v")
-	if err := os.WriteFile(out, []byte(MapRangeCoq(sites, nondet)), 0o644); err != nil {
+	if err := os.WriteFile(out, []byte(MapRangeCoq(sites, nondet, marshals)), 0o644); err != nil {
 		fmt.Fprintln(os.Stderr, err)
 		return 1
 	}
